@@ -8,7 +8,7 @@ from props.common import relevant
 def sessions(ctx):
     def it(rep):
         yield from sessbase.model_sessions(ctx, rep, 'MC_Session_life.cfg', 'lifetimes, client- and server-side logs, clocks',
-                                           ctx.pick(900, 12000), override={'MaxLen': ctx.pick(4, 5)},
+                                           ctx.pick(900, 12000), override={'MaxLen': 4},
                                            renders=[{'dialect': 'old'}, {'dialect': 'new'}, {'dialect': 'old', 'mark': ',', 'offset': 770203519}])
         for k in range(ctx.pick(150, 1500)):
             g = gen.SessionGen(ctx.seed * 104729 + k, nconn=(1, 2), nmsg=(20, 60), junk=0.03, core=None, dy=(k % 5 == 0))
